@@ -163,10 +163,10 @@ func setupUniverse(timeT types.Type) {
 	for _, n := range []string{"lastpkt", "lastsent"} {
 		types.Universe.Insert(types.NewFunc(token.NoPos, nil, n, types.NewSignatureType(nil, nil, nil, nil, types.NewTuple(v("", types.NewSlice(ghostByteT))), false)))
 	}
-	for _, n := range []string{"sealed", "opened"} {
+	for _, n := range []string{"sealed", "opened", "lastreadok"} {
 		types.Universe.Insert(types.NewFunc(token.NoPos, nil, n, types.NewSignatureType(nil, nil, nil, nil, types.NewTuple(v("", bt)), false)))
 	}
-	types.Universe.Insert(types.NewFunc(token.NoPos, nil, "calls", types.NewSignatureType(nil, nil, nil, types.NewTuple(v("name", types.Typ[types.String])), types.NewTuple(v("", it)), false)))
+	types.Universe.Insert(types.NewFunc(token.NoPos, nil, "calls", types.NewSignatureType(nil, nil, nil, types.NewTuple(v("name", types.Typ[types.String])), types.NewTuple(v("", mathintType)), false)))
 	for _, n := range []string{"lastreadn", "lastreadwant"} {
 		types.Universe.Insert(types.NewFunc(token.NoPos, nil, n, types.NewSignatureType(nil, nil, nil, nil, types.NewTuple(v("", it)), false)))
 	}
@@ -765,7 +765,7 @@ func ifaceCounterName(fi *FuncInfo) string {
 
 func (ex *Exec) bumpCalls(st *State, name string) {
 	cur := ex.callsCounter(st, name)
-	st.ghost["calls:"+name] = scalarV(types.Typ[types.Int], mkArith("add", cur.scalar(), mkInt(sortInt, 1)))
+	st.ghost["calls:"+name] = scalarV(mathintType, mkArith("add", cur.scalar(), mkInt(sortMath, 1)))
 }
 
 // callsCounter: ghost counter of calls through an interface method on this path. It starts at 0 at function entry;
@@ -775,7 +775,7 @@ func (ex *Exec) callsCounter(st *State, name string) Value {
 	if v, ok := st.ghost[k]; ok {
 		return v
 	}
-	v := scalarV(types.Typ[types.Int], mkInt(sortInt, 0))
+	v := scalarV(mathintType, mkInt(sortMath, 0))
 	st.ghost[k] = v
 	return v
 }
